@@ -57,6 +57,34 @@ def iv(s, length_hint=None):
     return (a, b)
 
 
+def tag_stores(f):
+    """tag stores of a demultiplex method, however they are written: X.tags[K] = V, X.addTagByTag(K, V), X.tags.update({K: V}), or a dictionary
+    that is filled (D = {K: V}, D[K] = V, D.update({K: V})) and handed to X.tags.update(D).  Returns {key: [(value expr, node)]}."""
+    stores = {}
+    tag_dicts = {src(c.args[0]) for c in walk_no_nested(f) if isinstance(c, ast.Call) and isinstance(c.func, ast.Attribute) and c.func.attr == 'update'
+                 and src(c.func.value).endswith('.tags') and c.args and isinstance(c.args[0], ast.Name)}
+
+    def is_tag_target(e):
+        return src(e).endswith('.tags') or src(e) in tag_dicts
+    for n_ in walk_no_nested(f):
+        if isinstance(n_, ast.Assign):
+            for t_ in n_.targets:
+                if isinstance(t_, ast.Subscript) and is_tag_target(t_.value) and isinstance(t_.slice, ast.Constant):
+                    stores.setdefault(t_.slice.value, []).append((n_.value, n_))
+                if isinstance(t_, ast.Name) and t_.id in tag_dicts and isinstance(n_.value, ast.Dict):
+                    for k_, v_ in zip(n_.value.keys, n_.value.values):
+                        if isinstance(k_, ast.Constant):
+                            stores.setdefault(k_.value, []).append((v_, n_))
+        elif isinstance(n_, ast.Call) and isinstance(n_.func, ast.Attribute):
+            if n_.func.attr == 'addTagByTag' and len(n_.args) >= 2 and isinstance(n_.args[0], ast.Constant):
+                stores.setdefault(n_.args[0].value, []).append((n_.args[1], n_))
+            elif n_.func.attr == 'update' and is_tag_target(n_.func.value) and n_.args and isinstance(n_.args[0], ast.Dict):
+                for k_, v_ in zip(n_.args[0].keys, n_.args[0].values):
+                    if isinstance(k_, ast.Constant):
+                        stores.setdefault(k_.value, []).append((v_, n_))
+    return stores
+
+
 def layout_of(ctx, cls, o):
     """per mate: dict role -> list of intervals, plus capture start. Returns None for composite strategies (handled through their parts)."""
     lay = {0: {}, 1: {}}
@@ -88,10 +116,19 @@ def layout_of(ctx, cls, o):
         from ..objeval import ObjInterpreter as _OI
         # fold simple locals defined from self attributes
         attrs = {f'self.{k}': v for k, v in o.items() if isinstance(v, (int, str, type(None)))}
-        for s in sorted([x for x in walk_no_nested(f) if isinstance(x, ast.Assign) and isinstance(x.targets[0], ast.Name)], key=lambda s: s.lineno):
-            v = fold(s.value, {**attrs, **env})
-            if v is not TOP and isinstance(v, int):
-                env[s.targets[0].id] = v
+        # (to fixpoint: statements produced by inlining a helper share the line number of the call, so line order is not definition order)
+        assigns = [x for x in walk_no_nested(f) if isinstance(x, ast.Assign) and isinstance(x.targets[0], ast.Name)]
+        single = {x.targets[0].id for x in assigns if sum(1 for y in assigns if y.targets[0].id == x.targets[0].id) == 1}
+        for _round in range(4):
+            before = len(env)
+            for s in assigns:
+                if s.targets[0].id not in single:
+                    continue
+                v = fold(s.value, {**attrs, **env})
+                if v is not TOP and isinstance(v, int):
+                    env[s.targets[0].id] = v
+            if len(env) == before:
+                break
         for n in walk_no_nested(f):
             if isinstance(n, ast.Subscript) and isinstance(n.slice, ast.Slice) and isinstance(n.value, ast.Attribute) and n.value.attr == 'sequence' \
                     and isinstance(n.value.value, ast.Subscript) and src(n.value.value.value) == 'records':
@@ -231,7 +268,20 @@ def r1(ctx):
     ctx.need('C02-R1', n_trim, 1, 'trimming helpers returning (sequence, qualities)')
     # the scattered helpers are twins
     a, b = ctx.fn(BASEDEMUX, 'apply_slices_seq'), ctx.fn(BASEDEMUX, 'apply_slices_qual')
-    norm = lambda f: ast.dump(ast.Module(body=f.body, type_ignores=[])).replace("attr='sequence'", "attr='@'").replace("attr='qual'", "attr='@'")
+    def norm(f):
+        # modulo the spelling of locals (numbered in order of first appearance) and the attribute read
+        import copy
+        m = copy.deepcopy(ast.Module(body=f.body, type_ignores=[]))
+        params = {a_.arg for a_ in f.args.args}
+        bound = [n_.id for n_ in ast.walk(m) if isinstance(n_, ast.Name) and isinstance(n_.ctx, ast.Store)]
+        order = {}
+        for n_ in ast.walk(m):
+            if isinstance(n_, ast.Name) and n_.id in bound and n_.id not in params and n_.id not in order:
+                order[n_.id] = f'v{len(order)}'
+        for n_ in ast.walk(m):
+            if isinstance(n_, ast.Name) and n_.id in order:
+                n_.id = order[n_.id]
+        return ast.dump(m).replace("attr='sequence'", "attr='@'").replace("attr='qual'", "attr='@'")
     ctx.emit('C02-R1', norm(a) == norm(b), BASEDEMUX, a, 'apply_slices_seq / apply_slices_qual are identical up to the attribute they read', key='scattered-twins')
     g = ctx.fn(BASEDEMUX, 'ScatteredUmiBarcodeDemuxMethod.demultiplex')
     ok = True
@@ -319,15 +369,11 @@ def r4(ctx):
                 v = arg(c, 1, 'barcode')
                 if v is not None:
                     sinks.append(('whitelist lookup', 'barcode', 'sequence', v, c))
-            if c.func.attr == 'addTagByTag' and c.args and isinstance(c.args[0], ast.Constant) and len(c.args) > 1:
-                sinks.append((f'tag {c.args[0].value}', None, None, c.args[1], c))
-            if c.func.attr == 'update' and src(c.func.value).endswith('.tags') and c.args and isinstance(c.args[0], ast.Dict):
-                for k, v in zip(c.args[0].keys, c.args[0].values):
-                    if isinstance(k, ast.Constant):
-                        sinks.append((f'tag {k.value}', None, None, v, c))
-        if isinstance(c, ast.Assign) and len(c.targets) == 1 and isinstance(c.targets[0], ast.Subscript) and src(c.targets[0].value).endswith('.tags') \
-                and isinstance(c.targets[0].slice, ast.Constant):
-            sinks.append((f'tag {c.targets[0].slice.value}', None, None, c.value, c))
+    for key_, lst_ in tag_stores(f).items():
+        for v_, node_ in lst_:
+            def strip_(e_):
+                return e_.args[0] if isinstance(e_, ast.Call) and (dotted(e_.func) or '').endswith('phredToFastqHeaderSafeQualities') and e_.args else e_
+            sinks.append((f'tag {key_}', None, None, strip_(v_), node_))
     ROLE = {'tag bc': ('barcode', 'sequence'), 'tag RX': ('umi', 'sequence'), 'tag RQ': ('umi', 'qual')}
     for name, role, field, v, node in sinks:
         if role is None:
@@ -657,26 +703,74 @@ def provenance(ctx, rid='C02-R8'):
             attrs = {x.attr for v_ in exprs for x in ast.walk(v_) if isinstance(x, ast.Attribute) and isinstance(x.value, ast.Name) and x.value.id == 'self'}
             role = 'barcode' if attrs and all(a_.lower().startswith('barcode') for a_ in attrs) else ('umi' if attrs and all(a_.lower().startswith('umi') for a_ in attrs) else None)
             return {(fld, role)}
+        def kind_of_expr(e):
+            """like kind_of for an arbitrary expression: the expression itself plus everything that flows into the locals it mentions"""
+            if isinstance(e, ast.Name):
+                return kind_of(e.id)
+            exprs = [e]
+            for n_ in ast.walk(e):
+                if isinstance(n_, ast.Name) and (n_.id in defs or n_.id in appends):
+                    exprs.extend(contributions(n_.id))
+            t_ = ' ; '.join(src(v_) for v_ in exprs)
+            is_seq = '.sequence[' in t_ or 'apply_slices_seq' in t_
+            is_qual = '.qual[' in t_ or 'apply_slices_qual' in t_
+            fld = 'sequence' if is_seq and not is_qual else ('qual' if is_qual and not is_seq else ('mixed' if is_seq and is_qual else None))
+            attrs = {x.attr for v_ in exprs for x in ast.walk(v_) if isinstance(x, ast.Attribute) and isinstance(x.value, ast.Name) and x.value.id == 'self'}
+            role = 'barcode' if attrs and all(a_.lower().startswith('barcode') for a_ in attrs) else ('umi' if attrs and all(a_.lower().startswith('umi') for a_ in attrs) else None)
+            return {(fld, role)}
+
+        # tag stores of the method, however they are written: X.tags[K] = V, X.addTagByTag(K, V), X.tags.update({K: V}), or a dictionary that
+        # is filled (D = {K: V}, D[K] = V, D.update({K: V})) and handed to X.tags.update(D)
+        stores = {}
+        tag_dicts = {src(c.args[0]) for c in walk_no_nested(f) if isinstance(c, ast.Call) and isinstance(c.func, ast.Attribute) and c.func.attr == 'update'
+                     and src(c.func.value).endswith('.tags') and c.args and isinstance(c.args[0], ast.Name)}
+
+        def is_tag_target(e):
+            return src(e).endswith('.tags') or src(e) in tag_dicts
+        for n_ in walk_no_nested(f):
+            if isinstance(n_, ast.Assign):
+                for t_ in n_.targets:
+                    if isinstance(t_, ast.Subscript) and is_tag_target(t_.value) and isinstance(t_.slice, ast.Constant):
+                        stores.setdefault(t_.slice.value, []).append((n_.value, n_))
+                    if isinstance(t_, ast.Name) and t_.id in tag_dicts and isinstance(n_.value, ast.Dict):
+                        for k_, v_ in zip(n_.value.keys, n_.value.values):
+                            if isinstance(k_, ast.Constant):
+                                stores.setdefault(k_.value, []).append((v_, n_))
+            elif isinstance(n_, ast.Call) and isinstance(n_.func, ast.Attribute):
+                if n_.func.attr == 'addTagByTag' and len(n_.args) >= 2 and isinstance(n_.args[0], ast.Constant):
+                    stores.setdefault(n_.args[0].value, []).append((n_.args[1], n_))
+                elif n_.func.attr == 'update' and is_tag_target(n_.func.value) and n_.args and isinstance(n_.args[0], ast.Dict):
+                    for k_, v_ in zip(n_.args[0].keys, n_.args[0].values):
+                        if isinstance(k_, ast.Constant):
+                            stores.setdefault(k_.value, []).append((v_, n_))
         res = [s_ for s_ in walk_no_nested(f) if isinstance(s_, ast.Assign) and isinstance(s_.targets[0], ast.Tuple) and 'getIndexCorrectedBarcodeAndHammingDistance' in src(s_.value)]
-        up = [c for c in walk_no_nested(f) if isinstance(c, ast.Call) and isinstance(c.func, ast.Attribute) and c.func.attr == 'update' and c.args and isinstance(c.args[0], ast.Dict)]
         ok = False
-        detail = 'tag update not found'
-        if len(res) == 1 and len(up) == 1:
+        detail = 'barcode tag stores not found'
+        und = True
+        anchor = f
+        if len(res) == 1 and all(len(stores.get(k_, [])) == 1 for k_ in ('bc', 'BC', 'bi', 'MX')):
+            und = False
             idn, corr, _hd = [e.id for e in res[0].targets[0].elts]
             call = res[0].value
             kw = {k.arg: src(k.value) for k in call.keywords}
-            mp = {k.value: src(v) for k, v in zip(up[0].args[0].keys, up[0].args[0].values) if isinstance(k, ast.Constant)}
+            mp = {k_: src(stores[k_][0][0]) for k_ in ('bc', 'BC', 'bi', 'MX')}
+            anchor = stores['bc'][0][1]
             rawname = kw.get('barcode')
             raw_from_seq = kind_of(rawname) == {('sequence', 'barcode')}
             ok = mp.get('bc') == rawname and mp.get('BC') == corr and mp.get('bi') == idn and mp.get('MX') == 'self.shortName' and raw_from_seq
             detail = f'bc <- {mp.get("bc")} (raw: {sorted(kind_of(rawname), key=str)}), BC <- {mp.get("BC")} (corrected), bi <- {mp.get("bi")}, MX <- {mp.get("MX")}; whitelist queried with {rawname}'
-        ctx.emit(rid, ok, BASEDEMUX, up[0] if up else f, f'{q}: {detail}', key=f'{q}:tag-provenance', what=f'{q}: a barcode tag records the wrong value (raw vs corrected)')
-        rx = [s_ for s_ in walk_no_nested(f) if isinstance(s_, ast.Assign) and isinstance(s_.targets[0], ast.Subscript) and src(s_.targets[0].value).endswith('.tags')
-              and isinstance(s_.targets[0].slice, ast.Constant) and s_.targets[0].slice.value == 'RX']
-        rq = [c for c in walk_no_nested(f) if isinstance(c, ast.Call) and isinstance(c.func, ast.Attribute) and c.func.attr == 'addTagByTag' and c.args and isinstance(c.args[0], ast.Constant) and c.args[0].value == 'RQ']
-        okx = len(rx) == 1 and len(rq) == 1 and kind_of(src(rx[0].value)) == {('sequence', 'umi')} and kind_of(src(rq[0].args[1])) == {('qual', 'umi')}
-        ctx.emit(rid, okx, BASEDEMUX, rx[0] if rx else f, f'{q}: RX <- {src(rx[0].value) if rx else None} {sorted(kind_of(src(rx[0].value))) if rx else ""}, '
-                 f'RQ <- {src(rq[0].args[1]) if rq else None} {sorted(kind_of(src(rq[0].args[1]))) if rq else ""}', key=f'{q}:umi-tags', nontrivial=False)
+        ctx.emit(rid, ok, BASEDEMUX, anchor, f'{q}: {detail}', key=f'{q}:tag-provenance', undecided=und and not ok, what=f'{q}: a barcode tag records the wrong value (raw vs corrected)')
+        rx, rq = stores.get('RX', []), stores.get('RQ', [])
+
+        def strip_encoder(e):
+            # the qualities may be stored through the header-safe encoder
+            if isinstance(e, ast.Call) and (dotted(e.func) or '').endswith('phredToFastqHeaderSafeQualities') and e.args:
+                return e.args[0]
+            return e
+        found = len(rx) == 1 and len(rq) == 1
+        okx = found and kind_of_expr(rx[0][0]) == {('sequence', 'umi')} and kind_of_expr(strip_encoder(rq[0][0])) == {('qual', 'umi')}
+        ctx.emit(rid, okx, BASEDEMUX, rx[0][1] if rx else f, f'{q}: RX <- {src(rx[0][0]) if rx else None} {sorted(kind_of_expr(rx[0][0])) if rx else ""}, '
+                 f'RQ <- {src(rq[0][0]) if rq else None} {sorted(kind_of_expr(strip_encoder(rq[0][0]))) if rq else ""}', key=f'{q}:umi-tags', nontrivial=False, undecided=not found)
 
 
 
